@@ -11,6 +11,8 @@
 //   [22, peer, dir, [policy..], all]          Global::delete_policy_assignment(name = peer address)
 //   [23, peer, <fields of an eval op from index 2>]  apply_export with the peer's effective export policy
 //   [24]                                      dump: table dump + per-peer assignments + stored global slots
+//   [25, vrps]  install VRPs in TableManager.rpki   [26, source, nlri, attrs, nh]  TableManager::apply_import (needs_rpki-gated)
+//   [27, nlri, asn]  probe RpkiTable::validate of TableManager.rpki
 //   1..8                                      as in harness/hx-policy, through the calls grpc.rs makes
 use super::val::Val;
 use super::{Global, PeerParams, TableManager};
@@ -98,6 +100,7 @@ fn asg_val(t: &PolicyTable, a: Option<Arc<PolicyAssignment>>) -> Val {
                     })
                     .collect(),
             ),
+            Val::b(a.needs_rpki),
         ])
     }))
 }
@@ -167,9 +170,46 @@ fn grun_op(g: &mut Global, tables: &Arc<TableManager>, op: &Val) -> Val {
                 .get(&peer_addr(&l[1]))
                 .and_then(|p| p.state.export_policy.load_full())
                 .or_else(|| tables.export_policy.load_full());
+            // the gate of PeerSession::handle_prefix_update: the RPKI table is handed to
+            // evaluation only when the assignment's cached needs_rpki flag is set
+            let rpki = a.as_deref().filter(|p| p.needs_rpki).map(|_| tables.rpki.read().unwrap());
             let mut f = vec![Val::n(9u8), Val::n(1u8)];
             f.extend_from_slice(&l[2..]);
-            eval_with(a.as_deref(), None, &f)
+            eval_with(a.as_deref(), rpki.as_deref(), &f)
+        }
+        25 => {
+            // install VRPs into the TableManager's RPKI table (what the RTR client does)
+            let src = Arc::new(IpAddr::V4(Ipv4Addr::new(192, 0, 2, 1)));
+            tables.rpki_insert(
+                l[1].list()
+                    .iter()
+                    .map(|e| {
+                        (
+                            rustybgp_packet::IpNet::new(ip_of(e.at(0)), e.at(1).u8()),
+                            Arc::new(Roa::new(e.at(2).u8(), e.at(3).u32(), src.clone())),
+                        )
+                    })
+                    .collect(),
+            );
+            Val::L(vec![Val::n(0u8)])
+        }
+        26 => {
+            // import evaluation through the real gated path: TableManager::apply_import with the stored slot
+            let policy = tables.import_policy.load_full();
+            let source = source_of(&l[1]);
+            let net = nlri_of(&l[2]);
+            let attrs: Arc<Vec<Attribute>> = Arc::new(l[3].list().iter().filter_map(attr_of).collect());
+            let mut nexthop = nh_of(&l[4]);
+            let (filtered, out) = tables.apply_import(policy.as_deref(), &source, &net, &attrs, &mut nexthop);
+            Val::L(vec![
+                Val::b(filtered),
+                Val::L(out.iter().map(attr_val).collect()),
+                nh_val(&nexthop),
+            ])
+        }
+        27 => {
+            let r = tables.rpki.read().unwrap();
+            probe(Some(&r), &[Val::n(12u8), l[1].clone(), l[2].clone()])
         }
         24 => {
             let mut peers: Vec<(u8, Val)> = g
